@@ -6,9 +6,32 @@ From Coq Require Import Sorting.Sorted.
 
 (* ---------- hypotheses on the token list (the lexical conventions of Model/Options.v) ---------- *)
 
-(* a name that starts with a digit is scanned as a number, so a TNamed name never does *)
-Definition tok_lex (t : gtok) : Prop := match t with TNamed s => lexname s = true | _ => True end.
+(* a name that starts with a digit is scanned as a number, so a TNamed name never does; the number of a
+   TNumbered token is read off a digit string, so it is not negative.
+   Modelling limit: [TNumbered n] stands for the CANONICAL decimal spelling of n.  Since /repo 5afce6b a
+   spelling with a leading zero ("(?<02>") is rejected under MaintainCaptureOrder (where the digits are a
+   name, and "02" and "2" would be two names for one number); such spellings are outside the token language. *)
+Definition tok_lex (t : gtok) : Prop :=
+  match t with TNamed s => lexname s = true | TNumbered n => 0 <= n | _ => True end.
+(* the former guard (known finding mco_digit_names): no explicit numbers.  Since /repo 2b27550 it is only
+   needed for what is about the NAME of an unnamed group (wf_tree, the name <-> number round trips). *)
 Definition tok_unnumbered (t : gtok) : Prop := match t with TNumbered _ => False | _ => True end.
+
+(* the names the pre-scan can file: a lexical name, or — when numbers are kept in pattern order, where
+   "(?<2>" opens a group NAMED "2" (parser.go:426-438) — the numeral of a positive number *)
+Definition name_ok (mco : bool) (s : name) : Prop :=
+  lexname s = true \/ (mco = true /\ exists n, 0 < n /\ s = itoa n).
+
+Lemma name_ok_nonempty : forall mco s, name_ok mco s -> s <> [].
+Proof.
+  intros mco s [H|[_ [n [Hn ->]]]]; [now apply lexname_nonempty|apply itoa_nonempty; lia].
+Qed.
+
+Lemma name_ok_default : forall s, name_ok false s -> lexname s = true.
+Proof. intros s [H|[H _]]; [assumption|discriminate]. Qed.
+
+Lemma name_ok_lex : forall mco s, lexname s = true -> name_ok mco s.
+Proof. intros. now left. Qed.
 
 (* ---------- noteCaptureSlot ---------- *)
 
@@ -97,7 +120,7 @@ Record pinv (mco : bool) (c : cstate) : Prop := {
   pi_unnamed : forall k, 0 <= k < c_autocap c -> In k (c_caps c);
   pi_keys : akeys (names_of c) = c_capnamelist c;
   pi_nodup : NoDup (c_capnamelist c);
-  pi_lex : Forall (fun s => lexname s = true) (c_capnamelist c);
+  pi_lex : Forall (name_ok mco) (c_capnamelist c);
   pi_some : forall m, c_capnames c = Some m -> m <> [];
   pi_topb : c_captop c <= Z.max lim (c_autocap c);
   pi_mco : mco = true ->
@@ -147,7 +170,7 @@ Proof.
 Qed.
 
 Lemma note_name_inv : forall mco ecma s c c',
-  pinv mco c -> lexname s = true -> c_autocap c < maxint32 ->
+  pinv mco c -> name_ok mco s -> c_autocap c < maxint32 ->
   note_name mco ecma s c = Ok c' ->
   pinv mco c'
   /\ c_autocap c <= c_autocap c' <= c_autocap c + 1
@@ -303,7 +326,7 @@ Qed.
 
 (* one token *)
 Lemma pstep_inv : forall mco ecma st t st' mk,
-  pinv mco (p_c st) -> tok_lex t -> tok_small t -> (mco = true -> ecma = false -> tok_unnumbered t) ->
+  pinv mco (p_c st) -> tok_lex t -> tok_small t ->
   c_autocap (p_c st) < maxint32 ->
   pstep mco ecma st t = Ok (st', mk) ->
   pinv mco (p_c st')
@@ -311,7 +334,7 @@ Lemma pstep_inv : forall mco ecma st t st' mk,
   /\ (forall k, In k (c_caps (p_c st)) -> In k (c_caps (p_c st')))
   /\ (mco = true -> forall s v, aget s (names_of (p_c st)) = Some v -> aget s (names_of (p_c st')) = Some v).
 Proof.
-  intros mco ecma st t st' mk Hinv Hlex Hsmall Hun Hlt H.
+  intros mco ecma st t st' mk Hinv Hlex Hsmall Hlt H.
   unfold pstep in H.
   destruct (ostep_prescan_ok (p_o st) t) as [o' Ho]. rewrite Ho in H. cbn [bind] in H.
   assert (Hsame : forall ign, st' = mkP o' ign (p_c st) ->
@@ -329,14 +352,19 @@ Proof.
   - (* TNamed *)
     destruct (note_name mco ecma s (p_c st)) as [c'| | |] eqn:En; try discriminate. cbn [bind] in H.
     injection H as <- <-. cbn [p_c].
-    destruct (note_name_inv mco ecma s (p_c st) c' Hinv Hlex Hlt En) as [H1 [H2 [H3 [_ [H5 _]]]]].
+    destruct (note_name_inv mco ecma s (p_c st) c' Hinv (name_ok_lex mco s Hlex) Hlt En) as [H1 [H2 [H3 [_ [H5 _]]]]].
     auto.
   - (* TNumbered *)
     destruct ecma; [injection H as <- <-; eapply Hsame; reflexivity|].
     destruct (n <=? 0) eqn:E0; [injection H as <- <-; eapply Hsame; reflexivity|].
     destruct (maxint32 <? n); [discriminate|].
     destruct mco.
-    + exfalso. apply (Hun eq_refl eq_refl).
+    + (* the digits are a name *)
+      destruct (note_name true false (itoa n) (p_c st)) as [c'| | |] eqn:En; try discriminate. cbn [bind] in H.
+      injection H as <- <-. cbn [p_c]. apply Z.leb_gt in E0.
+      assert (Hok : name_ok true (itoa n)) by (right; split; [reflexivity|exists n; split; [lia|reflexivity]]).
+      destruct (note_name_inv true false (itoa n) (p_c st) c' Hinv Hok Hlt En) as [H1 [H2 [H3 [_ [H5 _]]]]].
+      auto.
     + injection H as <- <-. cbn [p_c]. apply Z.leb_gt in E0. cbn in Hsmall.
       destruct (explicit_slot_inv (p_c st) n Hinv ltac:(lia)) as [H1 [H2 [H3 H4]]].
       split; [assumption|]. split; [lia|]. split; [assumption|discriminate].
@@ -345,7 +373,6 @@ Qed.
 (* the whole loop of countCaptures *)
 Lemma prun_inv : forall mco ecma ts st st' mks,
   pinv mco (p_c st) -> Forall tok_lex ts -> Forall tok_small ts ->
-  (mco = true -> ecma = false -> Forall tok_unnumbered ts) ->
   c_autocap (p_c st) + Z.of_nat (length ts) < maxint32 ->
   prun mco ecma st ts = Ok (st', mks) ->
   pinv mco (p_c st')
@@ -354,7 +381,7 @@ Lemma prun_inv : forall mco ecma ts st st' mks,
   /\ (mco = true -> forall s v, aget s (names_of (p_c st)) = Some v -> aget s (names_of (p_c st')) = Some v)
   /\ length mks = length ts.
 Proof.
-  intros mco ecma ts. induction ts as [|t ts IH]; intros st st' mks Hinv Hlex Hsmall Hun Hlt H.
+  intros mco ecma ts. induction ts as [|t ts IH]; intros st st' mks Hinv Hlex Hsmall Hlt H.
   - cbn in H. injection H as <- <-. cbn [length]. split; [exact Hinv|]. split; [lia|]. split; auto.
   - cbn [prun] in H.
     destruct (pstep mco ecma st t) as [[st1 mk]| | |] eqn:E1; try discriminate. cbn [bind] in H.
@@ -362,13 +389,68 @@ Proof.
     injection H as <- <-.
     inversion Hlex as [|? ? Hl1 Hl2]; subst. inversion Hsmall as [|? ? Hs1 Hs2]; subst.
     cbn [length] in Hlt.
+    destruct (pstep_inv mco ecma st t st1 mk Hinv Hl1 Hs1 ltac:(lia) E1) as [P1 [P2 [P3 P4]]].
+    destruct (IH st1 st2 mks2 P1 Hl2 Hs2 ltac:(lia) E2) as [Q1 [Q2 [Q3 [Q4 Q5]]]].
+    split; [assumption|]. split; [cbn [length]; lia|]. split; [auto|]. split; [auto|]. cbn. now rewrite Q5.
+Qed.
+
+(* with the guard (no explicit numbers where the digits would be a name) every filed name is lexical *)
+Lemma note_name_list : forall mco ecma s c c', note_name mco ecma s c = Ok c' ->
+  c_capnamelist c' = c_capnamelist c \/ c_capnamelist c' = c_capnamelist c ++ [s].
+Proof.
+  intros mco ecma s c c' H. unfold note_name in H.
+  destruct (aget s (names_of c)).
+  - destruct ecma; [discriminate|]. injection H as <-. now left.
+  - destruct mco; injection H as <-; cbn [c_capnamelist]; right; [|reflexivity].
+    destruct (note_slot_fields (c_autocap c)
+      (mkC (c_autocap c + 1) (c_caps c) (c_capcount c) (c_captop c) (Some (aset s (c_autocap c) (names_of c))) (c_capnamelist c))) as [_ [_ ->]].
+    reflexivity.
+Qed.
+
+Lemma pstep_lexnames : forall mco ecma st t st' mk,
+  tok_lex t -> (mco = true -> ecma = false -> tok_unnumbered t) ->
+  Forall (fun s => lexname s = true) (c_capnamelist (p_c st)) ->
+  pstep mco ecma st t = Ok (st', mk) ->
+  Forall (fun s => lexname s = true) (c_capnamelist (p_c st')).
+Proof.
+  intros mco ecma st t st' mk Hlex Hun HF H. unfold pstep in H.
+  destruct (ostep PreScan (p_o st) t) as [o'| | |]; try discriminate. cbn [bind] in H.
+  destruct (o_skip (p_o st)); [injection H as <- _; exact HF|].
+  destruct t; try (injection H as <- _; exact HF).
+  - destruct (negb (has (o_opts (p_o st)) opt_n) && negb (p_ign st)); injection H as <- _; cbn [p_c]; [|exact HF].
+    destruct (note_slot_fields (c_autocap (p_c st))
+      (mkC (c_autocap (p_c st) + 1) (c_caps (p_c st)) (c_capcount (p_c st)) (c_captop (p_c st)) (c_capnames (p_c st)) (c_capnamelist (p_c st)))) as [_ [_ ->]].
+    exact HF.
+  - destruct (note_name mco ecma s (p_c st)) as [c'| | |] eqn:E; try discriminate. cbn [bind] in H.
+    injection H as <- _. cbn [p_c].
+    destruct (note_name_list _ _ _ _ _ E) as [->| ->]; [exact HF|].
+    apply Forall_app. split; [exact HF|]. constructor; [exact Hlex|constructor].
+  - destruct ecma; [injection H as <- _; exact HF|].
+    destruct (n <=? 0); [injection H as <- _; exact HF|].
+    destruct (maxint32 <? n); [discriminate|].
+    destruct mco; [exfalso; exact (Hun eq_refl eq_refl)|].
+    injection H as <- _. cbn [p_c]. destruct (note_slot_fields n (p_c st)) as [_ [_ ->]]. exact HF.
+Qed.
+
+Lemma prun_lexnames : forall mco ecma ts st st' mks,
+  Forall tok_lex ts -> (mco = true -> ecma = false -> Forall tok_unnumbered ts) ->
+  Forall (fun s => lexname s = true) (c_capnamelist (p_c st)) ->
+  prun mco ecma st ts = Ok (st', mks) ->
+  Forall (fun s => lexname s = true) (c_capnamelist (p_c st')).
+Proof.
+  intros mco ecma ts. induction ts as [|t ts IH]; intros st st' mks Hlex Hun HF H.
+  - cbn in H. injection H as <- _. exact HF.
+  - cbn [prun] in H.
+    destruct (pstep mco ecma st t) as [[st1 mk]| | |] eqn:E1; try discriminate. cbn [bind] in H.
+    destruct (prun mco ecma st1 ts) as [[st2 mks2]| | |] eqn:E2; try discriminate. cbn [bind] in H.
+    injection H as <- _.
+    inversion Hlex as [|? ? Hl1 Hl2]; subst.
     assert (Hu1 : mco = true -> ecma = false -> tok_unnumbered t).
     { intros A B. specialize (Hun A B). now inversion Hun. }
     assert (Hu2 : mco = true -> ecma = false -> Forall tok_unnumbered ts).
     { intros A B. specialize (Hun A B). now inversion Hun. }
-    destruct (pstep_inv mco ecma st t st1 mk Hinv Hl1 Hs1 Hu1 ltac:(lia) E1) as [P1 [P2 [P3 P4]]].
-    destruct (IH st1 st2 mks2 P1 Hl2 Hs2 Hu2 ltac:(lia) E2) as [Q1 [Q2 [Q3 [Q4 Q5]]]].
-    split; [assumption|]. split; [cbn [length]; lia|]. split; [auto|]. split; [auto|]. cbn. now rewrite Q5.
+    apply (IH st1 st2 mks2 Hl2 Hu2); [|exact E2].
+    apply (pstep_lexnames mco ecma st t st1 mk Hl1 Hu1 HF E1).
 Qed.
 
 (* ================= assignOrderedNameSlots ================= *)
@@ -470,13 +552,15 @@ Proof.
   intros A x n i y H. apply nth_error_In in H. now apply repeat_spec in H.
 Qed.
 
+(* with lexical names only (no "(?<2>"): the table is well formed in the strong sense *)
 Theorem assign_ordered_wf : forall ecma c t,
-  pinv true c -> assign_ordered ecma c = Ok t -> wf_tree ecma t /\ t_caps t = c_caps c
+  pinv true c -> Forall (fun s => lexname s = true) (c_capnamelist c) ->
+  assign_ordered ecma c = Ok t -> wf_tree ecma t /\ t_caps t = c_caps c
   /\ (forall s v, aget s (names_of c) = Some v -> exists m, t_capnames t = Some m /\ aget s m = Some v).
 Proof.
-  intros ecma c t Hinv H.
+  intros ecma c t Hinv Hlex H.
   destruct (mco_dense c Hinv) as [Hcaps [Htop Hcnt]].
-  pose proof Hinv as [Hci Hauto Hun Hkeys Hnd Hlex Hsome Htopb Hmco].
+  pose proof Hinv as [Hci Hauto Hun Hkeys Hnd _ Hsome Htopb Hmco].
   destruct (Hmco eq_refl) as [_ [_ Hslots]].
   assert (Hnl : capnumlist_of c = None).
   { unfold capnumlist_of. rewrite Hcnt, Htop. now rewrite Z.ltb_irrefl. }
@@ -571,6 +655,139 @@ Proof.
       * intros _. exact Hcaps.
       * discriminate.
       * auto.
+Qed.
+
+
+(* ---- without the guard: digit names ---- *)
+
+(* the second loop only ADDS keys *)
+Lemma fill_ordered_mono : forall js l m l2 m2, fill_ordered false js l m = (l2, m2) ->
+  forall s v, aget s m = Some v -> aget s m2 = Some v.
+Proof.
+  induction js as [|j js IH]; intros l m l2 m2 H s v Hv.
+  - cbn in H. now injection H as _ <-.
+  - destruct l as [|x l]; [cbn in H; now injection H as _ <-|].
+    cbn [fill_ordered] in H.
+    set (s' := match x with [] => itoa j | _ => x end) in *.
+    set (m1 := if amem s' m then m else aset s' j m) in *.
+    destruct (fill_ordered false js l m1) as [r m'] eqn:E. injection H as _ <-.
+    apply (IH _ _ _ _ E). subst m1. destruct (amem s' m) eqn:Ea; [assumption|].
+    rewrite aget_aset_other; [assumption|]. intros ->. apply amem_false in Ea. congruence.
+Qed.
+
+Lemma fill_ordered_weak : forall js l m,
+  length js = length l -> (forall j, In j js -> 0 <= j) ->
+  (forall i s j, nth_error l i = Some s -> nth_error js i = Some j -> s = [] \/ (s <> [] /\ aget s m = Some j)) ->
+  exists l2 m2, fill_ordered false js l m = (l2, m2)
+    /\ Forall2 (names_entry_weak false m2) l2 js
+    /\ (forall i j, nth_error l i = Some [] -> nth_error js i = Some j -> nth_error l2 i = Some (itoa j)).
+Proof.
+  induction js as [|j js IH]; intros l m Hlen Hnn Hent.
+  - destruct l; [|discriminate]. exists [], m. cbn. split; [reflexivity|]. split; [constructor|].
+    intros i j H. destruct i; discriminate.
+  - destruct l as [|s l]; [discriminate|]. cbn in Hlen. injection Hlen as Hlen.
+    cbn [fill_ordered].
+    set (s' := match s with [] => itoa j | _ => s end).
+    set (m1 := if amem s' m then m else aset s' j m).
+    assert (Hj0 : 0 <= j) by (apply Hnn; now left).
+    assert (Hmono1 : forall x w, aget x m = Some w -> aget x m1 = Some w).
+    { intros x w Hx. subst m1. destruct (amem s' m) eqn:Ea; [assumption|].
+      rewrite aget_aset_other; [assumption|]. intros ->. apply amem_false in Ea. congruence. }
+    assert (Hs' : s' <> [] /\ exists v, aget s' m1 = Some v /\ (v = j \/ s' = itoa j)).
+    { destruct (Hent 0%nat s j eq_refl eq_refl) as [->|[Hne Hg]].
+      - subst s' m1. cbv beta iota. split; [now apply itoa_nonempty|].
+        destruct (amem (itoa j) m) eqn:Ea.
+        + apply amem_aget in Ea. destruct Ea as [v Hv]. exists v. auto.
+        + exists j. split; [apply aget_aset_same|now left].
+      - assert (Es : s' = s) by (subst s'; destruct s; [contradiction|reflexivity]).
+        rewrite Es. split; [assumption|]. exists j. split; [now apply Hmono1|now left]. }
+    destruct Hs' as [Hne [v [Hv Hor]]].
+    destruct (IH l m1) as [l2 [m2 [Hf [HF Hempty]]]]; try assumption.
+    { intros j' Hj'. apply Hnn. now right. }
+    { intros i s0 j0 Hi Hj0'. destruct (Hent (S i) s0 j0 Hi Hj0') as [->|[Hne0 Hg]]; [now left|right].
+      split; [assumption|now apply Hmono1]. }
+    rewrite Hf. exists (s' :: l2), m2. split; [reflexivity|]. split.
+    { constructor; [|assumption]. right. split; [assumption|]. exists v.
+      split; [apply (fill_ordered_mono _ _ _ _ _ Hf); assumption|assumption]. }
+    intros i j0 Hi Hj0'. destruct i as [|i]; cbn in *.
+    + injection Hi as ->. injection Hj0' as ->. reflexivity.
+    + now apply Hempty.
+Qed.
+
+(* no hypothesis on the names: the table is well formed in the weak sense, and the names the pre-scan
+   filed keep their numbers *)
+Theorem assign_ordered_weak : forall ecma c t,
+  pinv true c -> assign_ordered ecma c = Ok t -> wf_weak ecma t /\ t_caps t = c_caps c
+  /\ (forall s v, aget s (names_of c) = Some v -> exists m, t_capnames t = Some m /\ aget s m = Some v).
+Proof.
+  intros ecma c t Hinv H.
+  destruct (c_capnames c) as [m|] eqn:Em.
+  2:{ (* no names at all: the strong statement *)
+    assert (Hl : c_capnamelist c = []).
+    { rewrite <- (pi_keys _ _ Hinv). unfold names_of. now rewrite Em. }
+    destruct (assign_ordered_wf ecma c t Hinv ltac:(rewrite Hl; constructor) H) as [WF [H2 H3]].
+    split; [now apply wf_tree_weak|]. split; assumption. }
+  destruct (mco_dense c Hinv) as [Hcaps [Htop Hcnt]].
+  pose proof Hinv as [Hci Hauto Hun Hkeys Hnd Hok Hsome Htopb Hmco].
+  destruct (Hmco eq_refl) as [_ [_ Hslots]].
+  assert (Hnl : capnumlist_of c = None).
+  { unfold capnumlist_of. rewrite Hcnt, Htop. now rewrite Z.ltb_irrefl. }
+  assert (Hz : exists r, c_caps c = 0 :: r).
+  { rewrite Hcaps. unfold zrange. destruct (Z.to_nat (c_autocap c)) eqn:E; [lia|]. cbn. eexists; reflexivity. }
+  assert (Hlen0 : length (repeat ([] : name) (Z.to_nat (c_capcount c))) = length (zrange (c_capcount c)))
+    by (now rewrite repeat_length, zrange_length).
+  assert (Hwc : forall nm l, wf_caps (mkT (c_caps c) None (c_captop c) nm l)).
+  { intros nm l. constructor; cbn.
+    - apply Hci.
+    - assumption.
+    - intros _. now rewrite Hcaps, Htop.
+    - discriminate. }
+  unfold assign_ordered in H. rewrite Em, Hnl in H.
+  assert (Hm : names_of c = m) by (unfold names_of; now rewrite Em).
+  destruct (place_names_spec (c_capnamelist c) m (repeat [] (Z.to_nat (c_capcount c)))) as [l1 [Hp [Hl1 Hn1]]].
+  { intros s Hs. rewrite <- Hkeys, Hm in Hs.
+    destruct (aget s m) as [v|] eqn:Eg; [|apply aget_none_keys in Eg; contradiction].
+    exists v. split; [reflexivity|]. rewrite <- Hm in Eg. specialize (Hslots _ _ Eg).
+    rewrite repeat_length. lia. }
+  rewrite Hp in H. cbn [bind] in H.
+  assert (Hent : forall i s j, nth_error l1 i = Some s -> nth_error (zrange (c_capcount c)) i = Some j ->
+                   s = [] \/ (s <> [] /\ aget s m = Some j)).
+  { intros i s j Hi Hj. destruct (Hn1 i s Hi) as [Hold|[Hin Hg]].
+    - left. now apply repeat_nth_error in Hold.
+    - right. split; [rewrite Forall_forall in Hok; apply (name_ok_nonempty true); now apply Hok|].
+      assert (Hlt : (i < Z.to_nat (c_capcount c))%nat).
+      { rewrite <- zrange_length. apply nth_error_Some. congruence. }
+      rewrite zrange_nth in Hj by assumption. congruence. }
+  assert (Hfirst : nth_error l1 0 = Some []).
+  { destruct (nth_error l1 0) as [s|] eqn:E0.
+    - destruct (Hn1 0%nat s E0) as [Hold|[Hin Hg]]; [apply repeat_nth_error in Hold; now subst|].
+      rewrite <- Hm in Hg. specialize (Hslots _ _ Hg). lia.
+    - apply nth_error_None in E0. rewrite Hl1, repeat_length in E0. lia. }
+  assert (Hl1z : length (zrange (c_capcount c)) = length l1) by (now rewrite Hl1, repeat_length, zrange_length).
+  destruct ecma.
+  - rewrite fill_ordered_ecma in H by assumption. injection H as <-.
+    split; [|split; [reflexivity|]].
+    + constructor; [apply Hwc|]. cbn. split; [|split].
+      * rewrite Hcaps, <- Hcnt. apply Forall2_nth_intro; [now symmetry|].
+        intros i s j Hi Hj. destruct (Hent i s j Hi Hj) as [->|[Hne Hg]]; [now left|right].
+        split; [assumption|]. exists j. auto.
+      * intros _. destruct (aget [] m) eqn:Eg; [|reflexivity].
+        rewrite <- Hm in Eg. apply aget_some_key in Eg. rewrite Hkeys in Eg.
+        rewrite Forall_forall in Hok. specialize (Hok _ Eg). now apply name_ok_nonempty in Hok.
+      * destruct l1; [discriminate|]. cbn in Hfirst. injection Hfirst as ->. eexists; reflexivity.
+    + intros s v Hv. exists m. split; [reflexivity|]. now rewrite <- Hm.
+  - destruct (fill_ordered_weak (zrange (c_capcount c)) l1 m) as [l2 [m2 [Hf [HF Hempty]]]]; try assumption.
+    { intros j Hj. apply zrange_In in Hj. lia. }
+    rewrite Hf in H. injection H as <-.
+    split; [|split; [reflexivity|]].
+    + constructor; [apply Hwc|]. cbn. split; [|split].
+      * now rewrite Hcaps, <- Hcnt.
+      * discriminate.
+      * assert (H0 : nth_error l2 0 = Some (itoa 0)).
+        { apply Hempty; [assumption|]. apply (zrange_nth (c_capcount c) 0). lia. }
+        destruct l2; [discriminate|]. cbn in H0. injection H0 as ->. eexists; reflexivity.
+    + intros s v Hv. exists m2. split; [reflexivity|].
+      apply (fill_ordered_mono _ _ _ _ _ Hf). now rewrite <- Hm.
 Qed.
 
 
@@ -769,7 +986,9 @@ Theorem assign_default_wf : forall c t,
           end.
 Proof.
   intros c t Hinv Hb H.
-  pose proof Hinv as [Hci Hauto Hun Hkeys Hnd Hlex Hsome Htopb _].
+  pose proof Hinv as [Hci Hauto Hun Hkeys Hnd Hlex0 Hsome Htopb _].
+  assert (Hlex : Forall (fun s => lexname s = true) (c_capnamelist c)).
+  { eapply Forall_impl; [|exact Hlex0]. intros a Ha. now apply name_ok_default. }
   unfold assign_default in H.
   set (c1 := match c_capnames c with Some _ => assign_names (c_capnamelist c) c | None => c end) in *.
   destruct (assign_names_spec (c_capnamelist c) c Hci Hauto Hun Hnd) as [A1 [A2 [A3 [A4 [A5 [A6 [ks [A7 [A8 A9]]]]]]]]].
